@@ -685,9 +685,59 @@ func genMirror(t *rapid.T) Case {
 	return c
 }
 
+// genLate: augments that can only be applied after the implicit cases were inserted (their paths run through the
+// implicit case of a shorthand choice member), written in 2-3 modules, colliding with or building on one another.
+// Whether they succeed is not the question here; the outcome must be the same in every run and load order.
+func genLate(t *rapid.T) Case {
+	c := Case{Runs: 6, Features: []string{"late-augments"}}
+	c.Sources = append(c.Sources, ymodel.Source{Name: "t.yang", Text: "module t {\n namespace \"urn:t\";\n prefix t;\n container c {\n  choice ch {\n   container x { leaf xl { type string; } }\n   leaf y { type string; }\n   list z { key k; leaf k { type string; } }\n  }\n }\n}\n"})
+	n := rapid.IntRange(2, 3).Draw(t, "late-modules")
+	targets := []string{"/t:c/t:ch/t:x/t:x", "/t:c/t:ch/t:y", "/t:c/t:ch/t:z/t:z"}
+	for i := 0; i < n; i++ {
+		me := fmt.Sprintf("a%d", i+1)
+		var b strings.Builder
+		fmt.Fprintf(&b, "module %s {\n namespace \"urn:%s\";\n prefix %s;\n import t { prefix t; }\n", me, me, me)
+		for j := 1; j <= n; j++ {
+			if j != i+1 {
+				fmt.Fprintf(&b, " import a%d { prefix a%d; }\n", j, j)
+			}
+		}
+		k := rapid.IntRange(1, 3).Draw(t, "late-augments")
+		for j := 0; j < k; j++ {
+			tg := rapid.SampledFrom(targets).Draw(t, "late-target")
+			switch rapid.IntRange(0, 3).Draw(t, "late-kind") {
+			case 0: // a name every module may add: collisions
+				fmt.Fprintf(&b, " augment \"%s\" { leaf shared { type string; } }\n", tg)
+			case 1: // a container of one's own, for others to build on
+				fmt.Fprintf(&b, " augment \"%s\" { container box%d { leaf in { type string; } } }\n", tg, i+1)
+			case 2: // builds on another module's container
+				o := rapid.IntRange(1, n).Draw(t, "late-builds-on")
+				fmt.Fprintf(&b, " augment \"%s/a%d:box%d\" { leaf on%d-%d { type string; } }\n", tg, o, o, i+1, j)
+			default:
+				fmt.Fprintf(&b, " augment \"%s\" { leaf own%d-%d { type string; } choice inner%d-%d { leaf s%d-%d { type string; } } }\n", tg, i+1, j, i+1, j, i+1, j)
+			}
+		}
+		b.WriteString("}\n")
+		c.Sources = append(c.Sources, ymodel.Source{Name: me + ".yang", Text: b.String()})
+	}
+	nn := len(c.Sources)
+	idx := make([]int, nn)
+	for i := range idx {
+		idx[i] = i
+	}
+	c.Perms = append(c.Perms, append([]int(nil), idx...))
+	for i := 0; i < 5; i++ {
+		c.Perms = append(c.Perms, schema.Order(t, nn))
+	}
+	return c
+}
+
 func gen(t *rapid.T) Case {
 	if rapid.IntRange(0, 7).Draw(t, "revision-scenario") == 0 {
 		return genRevisions(t)
+	}
+	if rapid.IntRange(0, 19).Draw(t, "late-scenario") == 0 {
+		return genLate(t)
 	}
 	if rapid.IntRange(0, 19).Draw(t, "mirror-scenario") == 0 {
 		return genMirror(t)
